@@ -101,6 +101,8 @@ pub struct Profile {
     pub getmut_write: bool,
     pub negative_max: bool,
     pub big_advances: bool,
+    /// weight of E2 interposition ops (schedule mode only)
+    pub interpose: u32,
 }
 
 impl Default for Profile {
@@ -125,6 +127,7 @@ impl Default for Profile {
             getmut_write: false,
             negative_max: false,
             big_advances: true,
+            interpose: 0,
         }
     }
 }
@@ -357,6 +360,29 @@ pub fn op_strategy(p: &Profile, cfg: &Config) -> BoxedStrategy<Op> {
         arms.push((w.proc_insert, Just(Op::ProcInsert).boxed()));
         arms.push((w.proc_clear, Just(Op::ProcClear).boxed()));
         arms.push((w.drain, any::<bool>().prop_map(|clear_first| Op::Drain { clear_first }).boxed()));
+    }
+    if schedule && p.interpose > 0 {
+        let nested = prop_oneof![
+            4 => (0..nk, cost_strategy(cfg.max_cost, internal), ttl_strategy(p.ttl_pct), tag_strategy(cfg.max_cost, internal)).prop_map(|(k, cost, ttl, tag)| Op::Insert { k, cost, ttl, tag }),
+            3 => (0..nk).prop_map(|k| Op::Remove { k }),
+            2 => (0..nk).prop_map(|k| Op::Get { k }),
+            1 => (0..nk, cost_strategy(cfg.max_cost, internal), tag_strategy(cfg.max_cost, internal)).prop_map(|(k, cost, tag)| Op::InsertIfPresent { k, cost, tag }),
+            2 => Just(Op::ProcInsert),
+            1 => Just(Op::Tick),
+            1 => (0usize..3).prop_map(|pre| Op::Clear { pre }),
+        ];
+        let actions = proptest::collection::vec(nested, 1..=3);
+        let site = prop_oneof![
+            6 => (proptest::sample::select(vec!["proc.new.after_policy_add", "proc.new.after_store_insert", "proc.new.victim", "proc.update", "proc.delete.after_policy_remove"]), Just(Op::ProcInsert)),
+            2 => (Just("remove.after_store_remove"), (0..nk).prop_map(|k| Op::Remove { k })),
+            2 => (Just("insert.after_store_update"), (0..nk, cost_strategy(cfg.max_cost, internal), ttl_strategy(p.ttl_pct), tag_strategy(cfg.max_cost, internal)).prop_map(|(k, cost, ttl, tag)| Op::Insert { k, cost, ttl, tag })),
+            2 => (proptest::sample::select(vec!["cleanup.after_check", "cleanup.after_policy_remove"]), Just(Op::Tick)),
+            2 => (proptest::sample::select(vec!["clear.after_signal", "proc.clear.after_drain", "proc.clear.after_policy_clear", "proc.clear.after_store_clear"]), (0usize..3).prop_map(|pre| Op::Clear { pre })),
+        ];
+        arms.push((
+            p.interpose,
+            (site, 0usize..2, actions).prop_map(|((at, then), nth, actions)| Op::Interpose { at: at.to_string(), nth, actions, then: Box::new(then) }).boxed(),
+        ));
     }
     let arms: Vec<(u32, BoxedStrategy<Op>)> = arms.into_iter().filter(|(w, _)| *w > 0).collect();
     proptest::strategy::Union::new_weighted(arms).boxed()
